@@ -98,7 +98,10 @@ class Numbering(object):
                 return self._to_numbering_level(abstract_num.levels.get(level))
             else:
                 style = self._styles.find_numbering_style_by_id(abstract_num.num_style_link)
-                return self.find_level(style.num_id, level)
+                if style is None:
+                    return None
+                else:
+                    return self.find_level(style.num_id, level)
 
     def find_level_by_paragraph_style_id(self, style_id):
         return self._levels_by_paragraph_style_id.get(style_id)
